@@ -11,7 +11,7 @@ import itertools
 
 from .. import core
 from ..ebb3drv import new_object, request_methods
-from ..fakeserial import EBB3Board, FakePort, LegacyBoard, MODE_TO_QE
+from ..fakeserial import EBB3Board, FakePort, LegacyBoard, MODE_TO_QE, Profile, QUIET
 
 PROPERTY = "C06"
 
@@ -195,11 +195,31 @@ def legacy_helpers():
     return names
 
 
-def sent_legacy(helper, args, verbose=True, with_port=True):
+class _Stall:                                       # pylint: disable=too-few-public-methods
+    """Chooser that delays every reply line by the same number of empty reads (option index)
+    and answers the default everywhere else - a slow board, nothing exhaustive about it."""
+
+    def __init__(self, option):
+        self.option = option
+        self.trace = []
+
+    def choose(self, label, arity):
+        return self.option if (".l" in label and self.option < arity) else 0
+
+
+STALL_PROFILE = Profile(latency=(0, 1, 3))
+STALL_BUDGET = 12                   # slow-board repeats per (layer, helper) and chunk
+_STALLED = {}
+
+
+def sent_legacy(helper, args, verbose=True, with_port=True, stall=0):
     """Call a legacy helper; return (list of request texts, raw writes, exception)."""
     core.quiet_legacy_logger()
     mod = _libs()
-    port = FakePort(LegacyBoard(version="2.8.1")) if with_port else None
+    port = None
+    if with_port:
+        port = FakePort(LegacyBoard(version="2.8.1"), _Stall(stall) if stall else None,
+                        STALL_PROFILE if stall else QUIET)
     func = getattr(mod, helper)
     kwargs = {}
     if "verbose" in inspect.signature(func).parameters:
@@ -213,11 +233,13 @@ def sent_legacy(helper, args, verbose=True, with_port=True):
     return raw, exc
 
 
-def sent_ebb3(method, args, motor_state=None, connected=True):
+def sent_ebb3(method, args, motor_state=None, connected=True, stall=0):
     board = EBB3Board(future=True, nickname="Axi")
     if motor_state is not None:
         board.set_motor_state(*motor_state)
-    obj, port, _board = new_object(board=board, connected=connected)
+    obj, port, _board = new_object(_Stall(stall) if stall else None,
+                                   STALL_PROFILE if stall else QUIET, board=board,
+                                   connected=connected)
     exc = None
     try:
         getattr(obj, method)(*args)
@@ -286,6 +308,25 @@ def check_case(layer, helper, args, expected_fn, motor_state=None):
     if got != want:
         key = dropped_zero_key(layer, helper, args, want, got) or f"text:{layer}.{helper}"
         return [(key, f"{desc} sent {got!r}; the documented command is {want!r}")]
+    return slow_board_case(layer, helper, args, motor_state, raw, desc)
+
+
+def slow_board_case(layer, helper, args, motor_state, prompt_raw, desc):
+    """The same call against a board that answers after 1 and after 3 empty reads must put
+    exactly the same bytes on the wire ("... and nothing else")."""
+    seen = _STALLED.get((layer, helper), 0)
+    if seen >= STALL_BUDGET:
+        return []
+    _STALLED[(layer, helper)] = seen + 1
+    for stall in (1, 2):                # option index: 1 -> one empty read, 2 -> three
+        if layer == "legacy":
+            raw, exc = sent_legacy(helper, args, stall=stall)
+        else:
+            raw, exc, _obj = sent_ebb3(helper, args, motor_state, stall=stall)
+        if exc is not None or raw != prompt_raw:
+            return [(f"slow:{layer}.{helper}", f"{desc} against a board that answers after "
+                     f"{(0, 1, 3)[stall]} empty read(s) sent {texts(raw)!r} (exception {exc!r}); "
+                     f"against a prompt board it sent {texts(prompt_raw)!r}")]
     return []
 
 
@@ -318,6 +359,7 @@ MOTOR_STATES = [(m1, m2, mode) for m1 in (False, True) for m2 in (False, True)
 def _chunk(args):
     layer, helper, arg_list = args
     part = core.Part()
+    _STALLED.clear()                    # the slow-board budget is per chunk (deterministic)
     table = legacy_table(_CTX) if layer == "legacy" else ebb3_table(_CTX)
     expected_fn = table[helper][1]
     for call_args in arg_list:
@@ -394,7 +436,7 @@ def run(ctx):
         "exhaustive": True,
     }
     assumptions = [
-        "documented formats taken from the EBB command reference and the helpers' docstrings; "
+        "the first 12 calls of every chunk are repeated against a board that answers after 1 and 3 empty reads and must put the same bytes on the wire; documented formats taken from the EBB command reference and the helpers' docstrings; "
         "motors_enable protocol (CU,50,0 / QE / pre-set EM) as described in its docstring",
         "legacy layer talks to a firmware 2.8.1 board so that version-gated helpers transmit",
         "pause oracle is the statement's (durations in 1..750 summing to n), not a fixed chunking",
